@@ -9,6 +9,7 @@ import (
 	"sort"
 	"strconv"
 	"sync"
+	"sync/atomic"
 	"testing"
 	"testing/synctest"
 	"time"
@@ -37,13 +38,15 @@ func goid() uint64 {
 }
 
 type Task struct {
-	goid    uint64
-	Name    string
-	First   string
-	Site    string
-	parked  bool
-	release chan struct{}
-	Steps   int
+	lockWait bool  // parked because TryLock failed
+	epoch    int64 // unlock epoch observed when it failed
+	goid     uint64
+	Name     string
+	First    string
+	Site     string
+	parked   bool
+	release  chan struct{}
+	Steps    int
 }
 
 // Action is one thing the scheduler can do next.
@@ -69,12 +72,13 @@ type Sim struct {
 	S   *engine.Stats
 	Net *simnet.Net
 
-	schedG  uint64
-	mu      sync.Mutex
-	tasks   map[uint64]*Task
-	fresh   []*Task
-	named   []*Task
-	siteOrd map[string]int
+	schedG      uint64
+	unlockEpoch atomic.Int64
+	mu          sync.Mutex
+	tasks       map[uint64]*Task
+	fresh       []*Task
+	named       []*Task
+	siteOrd     map[string]int
 
 	Step     int
 	MaxSteps int
@@ -104,10 +108,14 @@ func NewSim(t *tape.Tape, log *engine.EvLog, st *engine.Stats) *Sim {
 
 // hook is installed as simyield.Hook for the duration of a bubble.
 func (s *Sim) hook(site string) {
-	g := goid()
-	if g == s.schedG {
+	if goid() == s.schedG {
 		return
 	}
+	s.park(site, false)
+}
+
+func (s *Sim) park(site string, lockWait bool) {
+	g := goid()
 	s.mu.Lock()
 	t := s.tasks[g]
 	if t == nil {
@@ -117,11 +125,28 @@ func (s *Sim) hook(site string) {
 	}
 	t.Site = site
 	t.parked = true
+	t.lockWait = lockWait
+	t.epoch = s.unlockEpoch.Load()
 	ch := make(chan struct{})
 	t.release = ch
 	s.mu.Unlock()
 	<-ch
 }
+
+// lockHook is installed as simyield.LockHook: a task whose TryLock fails parks and becomes
+// runnable again only after some Unlock happened anywhere (then it retries).
+func (s *Sim) lockHook(try func() bool, lock func(), site string) {
+	if goid() == s.schedG {
+		lock()
+		return
+	}
+	for !try() {
+		s.S.Count("probe:task_waited_for_a_mutex_held_by_a_parked_task")
+		s.park(site, true)
+	}
+}
+
+func (s *Sim) unlockHook() { s.unlockEpoch.Add(1) }
 
 // settle waits for quiescence and names tasks that appeared since the last step.
 func (s *Sim) settle() {
@@ -144,7 +169,7 @@ func (s *Sim) parkedTasks() []*Task {
 	defer s.mu.Unlock()
 	var out []*Task
 	for _, t := range s.named {
-		if t.parked {
+		if t.parked && (!t.lockWait || s.unlockEpoch.Load() > t.epoch) {
 			out = append(out, t)
 		}
 	}
@@ -313,6 +338,8 @@ func (s *Sim) RunBubble(body func()) (bubbleErr error) {
 	defer func() {
 		simyield.Hook = nil
 		simyield.ListenHook = nil
+		simyield.LockHook = nil
+		simyield.UnlockHook = nil
 		if r := recover(); r != nil {
 			bubbleErr = fmt.Errorf("%v", r)
 		}
@@ -332,6 +359,8 @@ func (s *Sim) RunBubble(body func()) (bubbleErr error) {
 		s.Net = simnet.New()
 		simyield.Hook = s.hook
 		simyield.ListenHook = s.listenAndServe
+		simyield.LockHook = s.lockHook
+		simyield.UnlockHook = s.unlockHook
 		body()
 	})
 	if bodyPanic != nil {
